@@ -16,6 +16,20 @@ CLAIMED = {
         note=NOTE_COMMON + " pandas Series(set) raising TypeError and dropna semantics are assumed contracts.",
         technique="contract-based deductive verification: VCs generated from the real AST, discharged by z3 (nlsat)",
         design="5/C16"),
+    "C17": dict(
+        text="subsample (numpy repeat/concatenate unpacking, choice without replacement, unique with counts: sorted unique category indices, positive "
+             "counts summing to n, each at most the original count - via the Lean counting lemma L-inj-count -, ValueError exactly when n exceeds the "
+             "total), downsample (identity when short enough or unbounded, otherwise exactly maxseqs elements at pairwise distinct positions / rows), "
+             "powerlaw_sample (requested length, every value integer-valued and >= xmin for integer xmin >= 1 and alpha > 1), _discrete_loglikelihood "
+             "(= -n ln zeta(alpha,xmin) - alpha sum ln x over the counts >= xmin) and powerlaw_mle_alpha (closed forms 'simple' and "
+             "'continuitycorrection' over the counts >= cmin; 'exact' hands minus that log-likelihood with the documented default bounds to the "
+             "bounded optimiser, whose assumed contract gives a maximiser within the bounds; ValueError exactly for an unknown method) are verified "
+             "path by path for all count vectors, sizes and parameters.",
+        note=NOTE_COMMON + " ln, zeta and real powers are uninterpreted functions with the stated monotonicity facts; sums of point-wise defined "
+             "vectors are uninterpreted functions of the defining expression. NOT decided: uniformity of the random draws (assumed of numpy), global "
+             "optimality of scipy's bounded search (assumed; objective convex).",
+        technique="contract-based deductive verification: VCs from the real AST (assumed numpy/scipy contracts, Lean counting lemma), z3 + cvc5",
+        design="5/C17"),
     "C02": dict(
         text="pc_n, pc (sequences, 1-3 column tables, legacy tuple form; one- and two-sample), pc_joint (1-4 columns, any column "
              "subset, both gap tokens), ensure_numpy and convert_tuple_to_dataframe_if_necessary are verified path by path against "
